@@ -8,6 +8,18 @@
    On start-up all meta blobs are scanned (readAllMetaBlobs): index rows are set, every meta blob is
    recorded in the heap (which may start a compaction right there).
 
+   Full (FullMetaBlobSize = 10000 in the code) bounds the growth of packed meta blobs (meta.go recordMeta /
+   makePackedMetaBlob); sizes are LINE counts n (a meta blob packed from overlapping meta blobs - a packed one
+   and the small ones it was made of, both still there after a crash between upload and removal - repeats
+   lines, and the code counts them):
+     - recordMeta ignores a meta blob of MORE than Full lines (it is never compacted again);
+     - the gather loop pops the tracked meta blobs, fewest lines first (ties in the heap's order: any),
+       appends lines and ref to the current group and, as soon as the group holds MORE than Full lines,
+       starts a job for it and begins a new group; at the end a group of one meta blob is pushed back on the
+       heap, a group of several becomes a job;
+     - a job records the packed meta blob it uploaded only if it has FEWER than Full lines (so one of exactly
+       Full lines is tracked again only after the next start-up scan).
+
    Identity survives abstraction: age is randomised, so every ciphertext and every meta blob is a NEW
    object with a fresh id (its name); re-packing the same plains yields a different blob.
 
@@ -33,6 +45,10 @@
 
    Deviations (named departures from the intended mechanism; {} is the mechanism as designed):
      "DeleteBeforeUpload"     the job deletes the small meta blobs before it uploads the packed one
+     "FlushDropsCarriedMeta"  the gather loop closes a group BEFORE it would exceed Full: the meta blob just
+                              popped is put on the closing group's delete list while its lines are carried
+                              into the next group; a last group without delete list is dropped - a meta blob
+                              is deleted by a job whose packed blob does not hold its entries
      "IndexBeforeMeta"        ReceiveBlob sets the index row before the meta blob is stored
      "NoDigestCheck"          Fetch does not compare the fetched ciphertext with the ref in the index row
      "MetaShapedBlobAccepted" no domain separation between blob and meta ciphertexts: a user blob whose
@@ -42,6 +58,8 @@ EXTENDS Naturals, FiniteSets
 
 CONSTANTS Plain,        \* plaintext blobs (positive naturals: ranks)
           Limit,        \* SmallMetaCountLimit
+          Full,         \* FullMetaBlobSize
+          Macro,        \* BOOLEAN: also take k complete receive cycles as ONE step (RecvBatch; adds no state)
           MaxId,        \* bound on fresh object ids
           MaxJobs,      \* bound on concurrently running compaction goroutines
           MaxCrash,     \* bound on the number of crashes explored
@@ -50,12 +68,12 @@ CONSTANTS Plain,        \* plaintext blobs (positive naturals: ranks)
           Deviations
 
 VARIABLES enc,      \* objects in `blobs`: set of [id, p]           (name = id, authentic ciphertext of p)
-          metas,    \* objects in `meta`:  set of [id, ents], ents a set of [p, c] (plain -> cipher id)
-          heap,     \* smallMeta: set of [id, plains]
+          metas,    \* objects in `meta`:  set of [id, ents, n], ents a set of [p, c] (plain -> cipher id), n lines
+          heap,     \* smallMeta: set of [id, plains, n]
           index,    \* local index: set of [p, c], at most one row per p
           acked,    \* plains whose ReceiveBlob returned success
           recv,     \* the ReceiveBlob in flight
-          jobs,     \* makePackedMetaBlob goroutines: set of [plains, del, pc, second]
+          jobs,     \* makePackedMetaBlob goroutines: set of [plains, n, del, pc, second]
           mode,     \* "up" | "down" | "scan" | "failed" (start-up scan returned an error)
           todo,     \* meta blobs the running start-up scan has not processed yet
           nextId,
@@ -75,17 +93,46 @@ SoundOutcomes == {"orig", "fail"}
 Has(d) == d \in Deviations
 Ids(S) == {x.id : x \in S}
 Dom(ix) == {e.p : e \in ix}
-Functional(ix) == \A e1, e2 \in ix : e1.p = e2.p => e1 = e2
+Functional(ix) == Cardinality(Dom(ix)) = Cardinality(ix)        \* no two rows with the same plain
 Override(ix, es) == {e \in ix : e.p \notin Dom(es)} \cup es
 PlainsOf(m) == Dom(m.ents)
 AllEnts(M) == UNION {m.ents : m \in M}
 Lookup(ix, p) == (CHOOSE e \in ix : e.p = p).c
 
-(* recordMeta: push; more than Limit tracked => pop everything into one job *)
-NewJob(h) == [plains |-> UNION {x.plains : x \in h}, del |-> Ids(h), pc |-> "get", second |-> FALSE]
-PushHeap(h, m) == IF Cardinality(h \cup {m}) > Limit THEN {} ELSE h \cup {m}
-PushJobs(h, js, m) == IF Cardinality(h \cup {m}) > Limit THEN js \cup {NewJob(h \cup {m})} ELSE js
-CanPush(h, js, m) == Cardinality(h \cup {m}) <= Limit \/ Cardinality(js) < MaxJobs
+(* recordMeta(m), meta.go: ignore a meta blob of more than Full lines; push; more than Limit tracked => pop
+   everything, fewest lines first, into groups that are closed as soon as they exceed Full lines. *)
+Job(P, n, D) == [plains |-> P, n |-> n, del |-> D, pc |-> "get", second |-> FALSE]
+HeapEl(i, P, n) == [id |-> i, plains |-> P, n |-> n]
+TheOne(D) == CHOOSE d \in D : TRUE
+
+(* the orders in which heap.Pop may deliver the set h: fewest lines first, ties in any order *)
+Orders(h) == LET k == Cardinality(h) IN
+             {s \in [1..k -> h] : \A i, j \in 1..k : i < j => (s[i] # s[j] /\ s[i].n <= s[j].n)}
+
+(* the loop of recordMeta over the pop order s[i..k]; P, n, D: lines (as a set of plains), line count and
+   delete list of the open group; J: jobs started so far.  Result: the jobs and what is pushed back. *)
+RECURSIVE Gather(_, _, _, _, _, _, _)
+Gather(s, i, k, P, n, D, J) ==
+  IF i > k
+    THEN [jobs |-> IF Cardinality(D) > 1 THEN J \cup {Job(P, n, D)} ELSE J,
+          left |-> IF Cardinality(D) = 1 THEN {HeapEl(TheOne(D), P, n)} ELSE {}]
+    ELSE LET m == s[i] IN
+         IF Has("FlushDropsCarriedMeta")
+           THEN IF n + m.n > Full
+                  THEN Gather(s, i + 1, k, m.plains, m.n, {}, J \cup {Job(P, n, D \cup {m.id})})
+                  ELSE Gather(s, i + 1, k, P \cup m.plains, n + m.n, D \cup {m.id}, J)
+           ELSE IF n + m.n > Full
+                  THEN Gather(s, i + 1, k, {}, 0, {}, J \cup {Job(P \cup m.plains, n + m.n, D \cup {m.id})})
+                  ELSE Gather(s, i + 1, k, P \cup m.plains, n + m.n, D \cup {m.id}, J)
+
+(* the possible results [heap, jobs] of recordMeta(m) with h tracked and js running *)
+RecordOutcomes(h, js, m) ==
+  IF m.n > Full THEN {[heap |-> h, jobs |-> js]}
+  ELSE IF Cardinality(h \cup {m}) <= Limit THEN {[heap |-> h \cup {m}, jobs |-> js]}
+  ELSE {[heap |-> g.left, jobs |-> js \cup g.jobs] :
+          g \in {Gather(s, 1, Cardinality(h \cup {m}), {}, 0, {}, {}) : s \in Orders(h \cup {m})}}
+Record(h, js, m) == \E o \in RecordOutcomes(h, js, m) :
+                      Cardinality(o.jobs) <= MaxJobs /\ heap' = o.heap /\ jobs' = o.jobs
 
 EInit == /\ enc = {} /\ metas = {} /\ heap = {} /\ index = {} /\ acked = {} /\ recv = NoRecv /\ jobs = {}
          /\ mode = "up" /\ todo = {} /\ nextId = 1 /\ tam = NoTam /\ fents = {} /\ ncrash = 0
@@ -118,11 +165,8 @@ RecvBlob ==
 
 RecvMeta ==
   /\ mode = "up" /\ recv.pc = "meta" /\ nextId <= MaxId
-  /\ LET hm == [id |-> nextId, plains |-> {recv.p}] IN
-     /\ CanPush(heap, jobs, hm)
-     /\ metas' = metas \cup {[id |-> nextId, ents |-> {[p |-> recv.p, c |-> recv.c]}]}
-     /\ heap' = PushHeap(heap, hm)
-     /\ jobs' = PushJobs(heap, jobs, hm)
+  /\ metas' = metas \cup {[id |-> nextId, ents |-> {[p |-> recv.p, c |-> recv.c]}, n |-> 1]}
+  /\ Record(heap, jobs, HeapEl(nextId, {recv.p}, 1))
   /\ recv' = [recv EXCEPT !.pc = AfterMeta]
   /\ nextId' = nextId + 1
   /\ UNCHANGED <<enc, index, acked, mode, todo, tam, fents, ncrash>>
@@ -160,13 +204,11 @@ JobAbandon(j) ==
 (* pcs: the job states from which the upload may be taken (the trace spec folds the silent index reads in) *)
 JobUploadFrom(j, pcs) ==
   /\ Running /\ j \in jobs /\ j.pc \in pcs /\ j.plains \subseteq Dom(index) /\ nextId <= MaxId
-  /\ LET hm == [id |-> nextId, plains |-> j.plains]
-         j1 == [j EXCEPT !.pc = "upload"]
+  /\ LET j1 == [j EXCEPT !.pc = "upload"]
          rest == Advance((jobs \ {j}) \cup {j1}, j1) IN
-     /\ CanPush(heap, rest, hm)
-     /\ metas' = metas \cup {[id |-> nextId, ents |-> {e \in index : e.p \in j.plains}]}
-     /\ heap' = PushHeap(heap, hm)
-     /\ jobs' = PushJobs(heap, rest, hm)
+     /\ metas' = metas \cup {[id |-> nextId, ents |-> {e \in index : e.p \in j.plains}, n |-> j.n]}
+     /\ IF j.n < Full THEN Record(heap, rest, HeapEl(nextId, j.plains, j.n))
+                      ELSE heap' = heap /\ jobs' = rest
   /\ nextId' = nextId + 1
   /\ UNCHANGED <<enc, index, acked, recv, mode, todo, tam, fents, ncrash>>
 JobUpload(j) == JobUploadFrom(j, {"upload"})
@@ -192,10 +234,7 @@ RestartBegin ==
 
 ScanOne(m) ==
   /\ mode = "scan" /\ m \in todo
-  /\ LET hm == [id |-> m.id, plains |-> PlainsOf(m)] IN
-     /\ CanPush(heap, jobs, hm)
-     /\ heap' = PushHeap(heap, hm)
-     /\ jobs' = PushJobs(heap, jobs, hm)
+  /\ Record(heap, jobs, HeapEl(m.id, PlainsOf(m), m.n))
   /\ index' = Override(index, m.ents)
   /\ todo' = todo \ {m}
   /\ UNCHANGED <<enc, metas, acked, recv, mode, nextId, tam, fents, ncrash>>
